@@ -45,6 +45,17 @@ type Entry struct {
 	Ver     int    // version the handler served (0 if n/a)
 	Nonce   string
 	Aborted bool
+
+	commit func(*Entry)
+}
+
+// Commit publishes Status/Ver/Nonce to the log right away. Handlers call it before they start
+// writing a body, so that a reader of the log never sees a half-described entry for a response
+// whose transfer is still in progress (or was abandoned by the proxy).
+func (e *Entry) Commit() {
+	if e.commit != nil {
+		e.commit(e)
+	}
 }
 
 // Handler answers one request. It fills e.Status / e.Ver for the log.
@@ -96,6 +107,11 @@ func (o *Origin) serve(w http.ResponseWriter, r *http.Request) {
 		}
 	}()
 	var st Entry
+	st.commit = func(s *Entry) {
+		o.mu.Lock()
+		e.Status, e.Ver, e.Nonce = s.Status, s.Ver, s.Nonce
+		o.mu.Unlock()
+	}
 	h(w, r, body, &st)
 	o.mu.Lock()
 	e.Status, e.Ver, e.Nonce = st.Status, st.Ver, st.Nonce
